@@ -4,15 +4,19 @@
 set -e
 cd "$(dirname "$0")"
 ulimit -s unlimited 2>/dev/null || true
+# one builder at a time: the checks rebuild under the same lock (harness/common.py)
+exec 9>.build.lock
+flock 9
 cd coq
 mkdir -p extracted
 coq_makefile -f _CoqProject -o Makefile > /dev/null 2>&1
 timeout 3000 make -j16 > ../build.log 2>&1 || { tail -40 ../build.log; echo "coq build failed"; exit 1; }
-if grep -rnE '\b(Admitted|admit|Axiom|Parameter|Conjecture)\b|Unset Guard|bypass_check|type-in-type' \
+if grep -rnE '\b(Admitted|admit|Axiom|Parameter|Conjecture|Abort)\b|Unset Guard|bypass_check|type-in-type' \
      --include=*.v Model Proofs Properties Ext | grep -vE '^[^:]*:[0-9]*: *\(\*'; then
   echo "forbidden construct found"; exit 1
 fi
 cd ../ocaml
+# build beside the old binary and rename over it: a check that is running the old one keeps its inode
 cp ../coq/extracted/model.ml ../coq/extracted/model.mli .
-ocamlfind ocamlopt -w -a model.mli model.ml driver.ml -o tdfmodel.new && mv -f tdfmodel.new tdfmodel
+ocamlfind ocamlopt -w -a model.mli model.ml driver.ml -o tdfmodel.$$ && mv -f tdfmodel.$$ tdfmodel
 echo "setup ok"
